@@ -49,6 +49,11 @@ pub fn decls() -> Vec<Item> {
         Item::Decl(Some("xml"), ""),
         // the reserved namespace names under an ordinary prefix (this parser accepts the XML one)
         Item::Decl(Some("q"), XML_NS),
+        // declarations the parser must refuse (and then ignore): the xmlns namespace name under any prefix or as
+        // the default namespace, and the xmlns prefix itself
+        Item::Decl(Some("p"), XMLNS_NS),
+        Item::Decl(None, XMLNS_NS),
+        Item::Decl(Some("xmlns"), "u1"),
     ]
 }
 pub fn attrs() -> Vec<Item> {
